@@ -3,6 +3,7 @@
 
 #pragma once
 
+#include <stddef.h>
 #include <list>
 #include <memory>
 #include <unordered_map>
@@ -34,7 +35,8 @@ class TemporalMetricStorage
 public:
   TemporalMetricStorage(InstrumentDescriptor instrument_descriptor,
                         AggregationType aggregation_type,
-                        const AggregationConfig *aggregation_config);
+                        const AggregationConfig *aggregation_config,
+                        size_t attributes_limit = kAggregationCardinalityLimit);
 
   bool buildMetrics(CollectorHandle *collector,
                     nostd::span<std::shared_ptr<CollectorHandle>> collectors,
@@ -56,6 +58,8 @@ private:
   // Lock while building metrics
   mutable opentelemetry::common::SpinLockMutex lock_;
   const AggregationConfig *aggregation_config_;
+  // cardinality limit of the merged (per collector) hashmaps
+  size_t attributes_limit_;
 };
 }  // namespace metrics
 }  // namespace sdk
